@@ -404,6 +404,8 @@ func (s *State) diffIOSACLs(al, bl []*cmd, diff []edit.Range) {
 	type cmdAndPos struct {
 		cmd *cmd
 		pos int
+		// Printable command including 'log' attribute.
+		printed string
 	}
 	// Collect to be deleted entries.
 	var del []*cmdAndPos
@@ -422,19 +424,22 @@ func (s *State) diffIOSACLs(al, bl []*cmd, diff []edit.Range) {
 	}
 	// Generate move command which sends add and delete command together
 	// as a single command.
-	// Ignore move if both positions belong to the same block.
+	// Ignore move if both positions belong to the same block
+	// and 'log' attribute is unchanged.
 	moveACL := func(a *cmdAndPos, b *cmd, before, i int, upOK, downOK bool) {
 		defer func() { a.cmd = nil }()
 		oldID := idx2Block[a.pos]
-		if a.pos < before {
-			// Line stays above inserted lines.
-			if upOK && idx2Block[before-1] == oldID {
-				return
-			}
-		} else {
-			// Line stays below inserted lines.
-			if downOK && idx2Block[before] == oldID {
-				return
+		if a.printed == s.printNetspocCmd(b) {
+			if a.pos < before {
+				// Line stays above inserted lines.
+				if upOK && idx2Block[before-1] == oldID {
+					return
+				}
+			} else {
+				// Line stays below inserted lines.
+				if downOK && idx2Block[before] == oldID {
+					return
+				}
 			}
 		}
 		delACL(a)
@@ -488,9 +493,9 @@ func (s *State) diffIOSACLs(al, bl []*cmd, diff []edit.Range) {
 			}
 		} else if r.IsDelete() {
 			for i, a := range al[r.LowA:r.HighA] {
-				p := getPrintableCmd(a, s.a)
-				p = stripLogRX.ReplaceAllLiteralString(p, "")
-				cmdPos := cmdAndPos{cmd: a, pos: r.LowA + i}
+				printed := getPrintableCmd(a, s.a)
+				p := stripLogRX.ReplaceAllLiteralString(printed, "")
+				cmdPos := cmdAndPos{cmd: a, pos: r.LowA + i, printed: printed}
 				delMap[p] = &cmdPos
 				del = append(del, &cmdPos)
 			}
